@@ -31,6 +31,11 @@ Accepts ==
               exp == Expected(ToFs(Tr.dst), list, Tr.opts, 0, Protected(Tr.rules))
           IN TreeMatchesJ(exp.fs, ToFs(Tr.final), J)
        /\ "extra" \in J => Len(Tr.extra) = 0
+       \* C14: the outcome does not depend on who sends: the destinations the other
+       \* arrangements produced for the same scenario are the same tree
+       /\ "peers" \in J => LET PJ == {"type", "content", "target"} \cup (IF Tr.opts.p THEN {"perm"} ELSE {}) \cup (IF Tr.opts.t THEN {"mtime"} ELSE {})
+                            IN \A k \in 1..Len(Tr.peers) : /\ TreeMatchesJ(ToFs(Tr.final), ToFs(Tr.peers[k]), PJ)
+                                                            /\ TreeMatchesJ(ToFs(Tr.peers[k]), ToFs(Tr.final), PJ)
        /\ "repeat" \in J => /\ Tr.result2 = "ok"       \* C12: an immediately repeated sync is a no-op
                             /\ ~Tr.changed2 /\ Len(Tr.resent2) = 0
 
